@@ -2,12 +2,14 @@
 //! real code. Sub-commands are documented in /verif/DESIGN.md section 4.
 
 mod ast;
+mod dot;
 mod dump;
 mod exec;
 mod model;
 mod parse;
 mod record;
 mod replay;
+mod serde_check;
 
 /// number of failures that are the harness' own (reported as tool errors, exit 2)
 pub static HARNESS_ERRORS: std::sync::atomic::AtomicU64 = std::sync::atomic::AtomicU64::new(0);
@@ -26,6 +28,8 @@ fn main() {
         "replay-child" => replay::main_child(&args[2..]),
         "record" => record::main(&args[2..]),
         "dump" => dump::main(&args[2..]),
+        "dotcheck" => dot::main(&args[2..]),
+        "serde" => serde_check::main(&args[2..]),
         other => {
             eprintln!("unknown sub-command {other}");
             2
